@@ -21,6 +21,7 @@ Inductive err :=
 | EAttr               (* AttributeError *)
 | EIndex              (* IndexError *)
 | EType               (* TypeError *)
+| EZeroDiv            (* ZeroDivisionError: Python float division by zero *)
 | EValue              (* ValueError raised by a numerical kernel's input check *)
 | ENanArith           (* a NaN would enter the books (model refuses; Python records NaN) *)
 | EOutOfFuel          (* model artefact: recursion level exhausted; must never be observed *)
